@@ -47,7 +47,7 @@ def gen_test(rng, idx, failure=None, kinds=None):
     kinds = kinds or ["xor_add", "mul", "div", "mod", "sdiv", "addmod", "mulmod", "exp", "bytes_len", "arr_sum", "unsat", "two_args", "storage",
                       "signed", "shift", "nested_assert", "conj3", "loop_guard", "arr_loop", "bytes_tail", "disarm", "storage", "storage2",
                       "smod_zero", "mod_zero", "div_zero", "sdiv_zero", "addmod_zero", "mulmod_zero",
-                      "div_zero_hit", "mod_zero_hit", "sdiv_zero_hit", "smod_zero_hit", "nested_stuck", "mul_exp", "two_fail"]
+                      "div_zero_hit", "mod_zero_hit", "sdiv_zero_hit", "smod_zero_hit", "nested_stuck", "mul_exp", "two_fail", "multi_width"]
     kind = rng.choice(kinds)
     failure = failure or rng.choice(["panic1", "panic1", "panic11", "vmassert", "vmasserteq", "failflag"])
     name = f"check_t{idx}"
@@ -166,6 +166,16 @@ def gen_test(rng, idx, failure=None, kinds=None):
         op = {"div_zero_hit": "DIV", "mod_zero_hit": "MOD", "sdiv_zero_hit": "SDIV", "smod_zero_hit": "SMOD"}[kind]
         body = arg(1) + arg(0) + [op, "ISZERO"] + arg(1) + ["ISZERO", "AND"] + arg(0) + [("push", K, 32), "EQ", "AND", "@bad", "JUMPI", "STOP"] + bad
         return GenTest(Fn(name, [("x", U), ("y", U)], body), [[K, 0]], True, kind, failure, feats, needs_refinement=True)
+    if kind == "multi_width":
+        # the same abstract operation at several bit widths on one path: MOD (256), ADDMOD (264) and MULMOD (512) all use the remainder
+        # abstraction, MUL (256) and MULMOD (512) the multiplication one; every one of them has to be refined
+        m = rng.choice([7, 11, 13])
+        x0 = rng.randrange(m, 1000)
+        y0 = rng.randrange(1, 50)
+        r1, r2, r3 = x0 % m, (x0 + y0) % m, (x0 * y0) % m
+        body = (arg(2) + arg(0) + ["MOD", r1, "EQ"] + arg(2) + arg(1) + arg(0) + ["ADDMOD", r2, "EQ", "AND"] + arg(2) + arg(1) + arg(0) + ["MULMOD", r3, "EQ", "AND"]
+                + arg(1) + arg(0) + ["MUL", x0 * y0, "EQ", "AND"] + arg(2) + [m, "EQ", "AND", "@bad", "JUMPI", "STOP"] + bad)
+        return GenTest(Fn(name, [("x", U), ("y", U), ("z", U)], body), [[x0, y0, m]], True, kind, failure, feats, needs_refinement=True)
     if kind == "mul_exp":
         # a refinable abstraction (MUL) and an un-refinable one (EXP with symbolic exponent) on the same failing path; never fails concretely:
         # x * y == 35 has (1,35),(5,7),(7,5),(35,1),... and none of them gives x ** y == 2
